@@ -14,7 +14,17 @@ run_one() {
   T=$(mktemp -d /tmp/selftest.XXXXXX)
   rsync -a --exclude .git /repo/ $T/repo/
   if ! (cd $T/repo && patch -s -p1 < /verif/$d); then echo "PATCH-FAILED $name"; rm -rf $T; return 1; fi
-  out=$(bin/govc check -prop $prop -tier quick -repo $T/repo -work $T/work -no-evidence 2>&1); rc=$?
+  if [ $kind = mustpass ]; then
+    # several properties may be named (comma separated): all of them must stay green
+    rc=0; out=""
+    for p in ${prop//,/ }; do
+      o=$(bin/govc check -prop $p -tier quick -repo $T/repo -work $T/work -no-evidence 2>&1) || rc=1
+      out="$out
+$o"
+    done
+  else
+    out=$(bin/govc check -prop $prop -tier quick -repo $T/repo -work $T/work -no-evidence 2>&1); rc=$?
+  fi
   rm -rf $T
   if [ $kind = mustfail ]; then
     if [ $rc -eq 1 ] && echo "$out" | grep -q "VIOLATION property=$prop" && { [ -z "$expect" ] || echo "$out" | grep -qF "$expect"; }; then
